@@ -263,14 +263,13 @@ theorem tokenName_word (n : Nat) : (tokenName n).all isWordChar = true := by
 
 theorem hasWord_tokenName (n : Nat) : hasWord paramName (tokenName n) = false := by
   have h1 : tokenName n = 't' :: (['o', 'k', 'e', 'n'] ++ digits n) := by
-    simp only [tokenName, uniqueName, tx, String.reduceToList, List.cons_append, List.nil_append]
+    simp only [tokenName, uniqueName, List.cons_append, List.nil_append]
   have h2 : paramName = 'c' :: t!"ollection_name" := by decide
   have hne : tokenName n ≠ [] := by rw [h1]; exact List.cons_ne_nil _ _
   rw [hasWord_false_iff, tokens_word _ (tokenName_word n) hne, List.mem_singleton, h1, h2]
   intro h
   exact absurd (List.cons.inj h).1 (by decide)
 
-theorem tx_eq (s : String) : tx s = s.toList := rfl
 theorem paramName_eq : paramName = t!"collection_name" := rfl
 theorem resultName_eq : resultName = t!"result" := rfl
 
@@ -297,7 +296,7 @@ theorem frag_cmsMiniaod (c : CollSpec) (bank : Text) (n : Nat) (st : GenState) (
       hasWord_sandwich _ _ _ _ (by decide) (by decide) (by decide) (by decide) (hasWord_tokenName n)
     have e : t!"iEvent.getByToken(" ++ (uniqueName t!"token" n ++ t!", result);") =
         t!"iEvent.getByToken(" ++ tokenName n ++ t!", result);" := by
-      simp only [tokenName, tx, List.append_assoc]
+      simp only [tokenName, List.append_assoc]
     rw [e, substWord_noWord _ _ _ h2, stmtLine_append _ _ (show (t!", result);").getLast? = some ';' from by decide), assign_line]
     rfl
   · simp only [expectedTokenDecl, declOf, tokenName]; text_eq
@@ -308,5 +307,432 @@ theorem frag_cmsMiniaod (c : CollSpec) (bank : Text) (n : Nat) (st : GenState) (
     rw [e, substWord_sandwich _ _ _ _ paramName_word paramName_ne
       (by rw [endsNonWord_append _ _ (by decide)]; decide) (by decide) hpre (by decide)]
     simp only [expectedTokenInit, declOf, tokenName]; text_eq
+
+/-! ## tables, metadata branches, `validate` -/
+
+instance (b : Backend) (c : CollSpec) : Decidable (ClassOk b c) :=
+  decidable_of_iff (c.tyStr = expectedTy b (declOf c) ∧ (b = .cmsMiniaod → c.tokenTypeStr = some (t!"edm::EDGetTokenT<" ++ c.container ++ t!">")) ∧ c.depthType = 1)
+    ⟨fun ⟨a, b, c⟩ => ⟨a, b, c⟩, fun h => ⟨h.ty, h.tok, h.depthType⟩⟩
+
+theorem builtins_classOk (b : Backend) : ∀ c ∈ builtins b, ClassOk b c := by
+  cases b <;> decide +kernel
+
+theorem builtins_declOf (b : Backend) : (builtins b).map declOf = builtinDecls b := by
+  cases b <;> decide +kernel
+
+/-- the generated description of the backend's metadata branch -/
+def branchOf (b : Backend) : MdBranch := (findBranch b.mdType).getD default
+
+theorem findBranch_mdType (b : Backend) : findBranch b.mdType = some (branchOf b) := by
+  cases b <;> decide +kernel
+
+theorem findBranch_some (t : Text) (br : MdBranch) (h : findBranch t = some br) :
+    ∃ b : Backend, t = b.mdType ∧ br = branchOf b := by
+  unfold findBranch at h
+  have hm := List.find?_some h
+  have hmem := List.mem_of_find?_eq_some h
+  simp only [beq_iff_eq] at hm
+  have : ∀ br' ∈ Gen.mdBranches, (br'.mdType = Backend.mdType .atlas ∧ br' = branchOf .atlas) ∨
+      (br'.mdType = Backend.mdType .cmsAod ∧ br' = branchOf .cmsAod) ∨
+      (br'.mdType = Backend.mdType .cmsMiniaod ∧ br' = branchOf .cmsMiniaod) := by decide +kernel
+  rcases this br hmem with ⟨h1, h2⟩ | ⟨h1, h2⟩ | ⟨h1, h2⟩
+  · exact ⟨.atlas, by rw [← hm, h1], h2⟩
+  · exact ⟨.cmsAod, by rw [← hm, h1], h2⟩
+  · exact ⟨.cmsMiniaod, by rw [← hm, h1], h2⟩
+
+
+/-! ### stages of `validateWith` -/
+
+theorem validateWith_ok {br : MdBranch} {md : Md} {c : CollSpec} (h : validateWith br md = .ok c) :
+    firstUnexpected br.whitelist md.keys = none ∧ flagStage br md = .ok () ∧
+    ∃ ci ct et libs name incs, containerStage br md = .ok (ci, ct, et) ∧ libsStage br md = .ok libs ∧
+      md.reqStr t!"name" = .ok name ∧ md.reqStrs t!"include_files" = .ok incs ∧
+      c = mkSpec br.specBackend name incs ci ct et libs := by
+  unfold validateWith at h
+  cases h1 : firstUnexpected br.whitelist md.keys with
+  | some k => simp [h1] at h
+  | none =>
+    cases h2 : flagStage br md with
+    | error e => simp [h1, h2] at h
+    | ok u =>
+      cases h3 : containerStage br md with
+      | error e => simp [h1, h2, h3] at h
+      | ok r =>
+        obtain ⟨ci, ct, et⟩ := r
+        cases h4 : libsStage br md with
+        | error e => simp [h1, h2, h3, h4] at h
+        | ok libs =>
+          cases h5 : md.reqStr t!"name" with
+          | error e => simp [h1, h2, h3, h4, h5] at h
+          | ok name =>
+            cases h6 : md.reqStrs t!"include_files" with
+            | error e => simp [h1, h2, h3, h4, h5, h6] at h
+            | ok incs =>
+              simp [h1, h2, h3, h4, h5, h6] at h
+              exact ⟨rfl, rfl, ci, ct, et, libs, name, incs, rfl, rfl, rfl, rfl, h.symm⟩
+
+theorem validateWith_of {br : MdBranch} {md : Md} {ci ct et libs name incs}
+    (h1 : firstUnexpected br.whitelist md.keys = none) (h2 : flagStage br md = .ok ())
+    (h3 : containerStage br md = .ok (ci, ct, et)) (h4 : libsStage br md = .ok libs)
+    (h5 : md.reqStr t!"name" = .ok name) (h6 : md.reqStrs t!"include_files" = .ok incs) :
+    validateWith br md = .ok (mkSpec br.specBackend name incs ci ct et libs) := by
+  unfold validateWith; simp [h1, h2, h3, h4, h5, h6]
+
+theorem firstUnexpected_none_iff (wl ks : List Text) : firstUnexpected wl ks = none ↔ ∀ k ∈ ks, k ∈ wl := by
+  induction ks with
+  | nil => simp [firstUnexpected]
+  | cons k ks ih =>
+    by_cases hk : k ∈ wl
+    · simp [firstUnexpected, hk, ih]
+    · simp [firstUnexpected, hk]
+
+theorem reqStr_ok_iff (md : Md) (k s : Text) : md.reqStr k = .ok s ↔ md.get? k = some (.str s) := by
+  unfold Md.reqStr
+  cases h : md.get? k with
+  | none => simp
+  | some v => cases v <;> simp
+
+theorem reqStrs_ok_iff (md : Md) (k : Text) (l : List Text) : md.reqStrs k = .ok l ↔ md.get? k = some (.strs l) := by
+  unfold Md.reqStrs
+  cases h : md.get? k with
+  | none => simp
+  | some v => cases v <;> simp
+
+theorem flagStage_ok_iff (br : MdBranch) (md : Md) (hf : br.flagCheck = true) :
+    flagStage br md = .ok () ↔ md.has t!"contains_collection" = true ∧ (md.flag = true ↔ md.has t!"element_type" = true) := by
+  unfold flagStage Md.flag Md.has
+  simp only [hf, if_true]
+  cases h : md.get? t!"contains_collection" with
+  | none => simp
+  | some v =>
+    cases hv : v.truthy <;> cases he : (md.get? t!"element_type").isSome <;> simp
+
+
+/-! ### facts about the generated branches and classes (re-checked whenever the source changes) -/
+
+theorem branch_flagCheck (b : Backend) : (branchOf b).flagCheck = true := by cases b <;> decide
+theorem branch_specBackend (b : Backend) : (branchOf b).specBackend = b.execName := by cases b <;> decide
+theorem branch_whitelist (b : Backend) : (branchOf b).whitelist = b.whitelist := by cases b <;> decide
+theorem execName_injective (b b' : Backend) (h : b.execName = b'.execName) : b = b' := by
+  cases b <;> cases b' <;> first | rfl | (exact absurd h (by decide))
+
+theorem branch_atlas : ∃ cc sc ciC ciS, (branchOf .atlas).build = .byFlag cc sc ∧
+    classStage cc = .ok ciC ∧ classStage sc = .ok ciS ∧ (branchOf .atlas).librariesKey = some t!"link_libraries" ∧
+    ciC.str = [.lit t!"const ", .hole t!"self.type", .lit t!"*"] ∧ ciC.depthType = 1 ∧ ciC.depthElem = 1 ∧
+    ciS.str = [.lit t!"const ", .hole t!"self.type", .lit t!" *"] ∧ ciS.depthType = 1 ∧ ciS.depthElem = 0 :=
+  ⟨_, _, _, _, rfl, rfl, rfl, by decide, by decide, by decide, by decide, by decide, by decide, by decide⟩
+
+theorem branch_cmsAod : ∃ cc ciC, (branchOf .cmsAod).build = .always cc ∧
+    classStage cc = .ok ciC ∧ (branchOf .cmsAod).librariesKey = none ∧
+    ciC.str = [.lit t!"edm::Handle<", .hole t!"self.type", .lit t!">"] ∧ ciC.depthType = 1 ∧ ciC.depthElem = 0 :=
+  ⟨_, _, rfl, rfl, by decide, by decide, by decide, by decide⟩
+
+theorem branch_cmsMiniaod : ∃ cc ciC, (branchOf .cmsMiniaod).build = .always cc ∧
+    classStage cc = .ok ciC ∧ (branchOf .cmsMiniaod).librariesKey = none ∧
+    ciC.str = [.lit t!"Handle<", .hole t!"self.type", .lit t!">"] ∧ ciC.depthType = 1 ∧ ciC.depthElem = 0 ∧
+    ciC.tokenType = some [.lit t!"edm::EDGetTokenT<", .hole t!"self.type", .lit t!">"] :=
+  ⟨_, _, rfl, rfl, by decide, by decide, by decide, by decide, by decide⟩
+
+
+theorem get?_mem_keys {md : Md} {k : Text} {v : MdVal} (h : md.get? k = some v) : k ∈ md.keys := by
+  unfold Md.get? at h
+  cases hf : md.fields.find? (fun p => p.1 == k) with
+  | none => simp [hf] at h
+  | some p =>
+    have hm := List.mem_of_find?_eq_some hf
+    have hk := List.find?_some hf
+    simp only [beq_iff_eq] at hk
+    simp only [Md.keys, List.mem_cons, List.mem_map]
+    exact Or.inr ⟨p, hm, hk⟩
+
+theorem get?_none_of_not_whitelisted {md : Md} {wl : List Text} (hk : ∀ k ∈ md.keys, k ∈ wl) {k : Text} (h : k ∉ wl) :
+    md.get? k = none := by
+  cases hg : md.get? k with
+  | none => rfl
+  | some v => exact absurd (hk k (get?_mem_keys hg)) h
+
+theorem collStage_ok {md : Md} {cls : Text} {r} (h : collStage md cls = .ok r) :
+    ∃ ci ct et, r = (ci, ct, some et) ∧ md.get? t!"container_type" = some (.str ct) ∧
+      md.get? t!"element_type" = some (.str et) ∧ classStage cls = .ok ci := by
+  unfold collStage at h
+  cases h1 : md.reqStr t!"container_type" with
+  | error e => simp [h1] at h
+  | ok ct =>
+    cases h2 : md.reqStr t!"element_type" with
+    | error e => simp [h1, h2] at h
+    | ok et =>
+      cases h3 : classStage cls with
+      | error e => simp [h1, h2, h3] at h
+      | ok ci =>
+        simp [h1, h2, h3] at h
+        exact ⟨ci, ct, et, h.symm, (reqStr_ok_iff _ _ _).1 h1, (reqStr_ok_iff _ _ _).1 h2, rfl⟩
+
+theorem singleStage_ok {md : Md} {cls : Text} {r} (h : singleStage md cls = .ok r) :
+    ∃ ci ct, r = (ci, ct, none) ∧ md.get? t!"container_type" = some (.str ct) ∧ classStage cls = .ok ci := by
+  unfold singleStage at h
+  cases h1 : md.reqStr t!"container_type" with
+  | error e => simp [h1] at h
+  | ok ct =>
+    cases h3 : classStage cls with
+    | error e => simp [h1, h3] at h
+    | ok ci =>
+      simp [h1, h3] at h
+      exact ⟨ci, ct, h.symm, (reqStr_ok_iff _ _ _).1 h1, rfl⟩
+
+theorem has_of_get? {md : Md} {k : Text} {v : MdVal} (h : md.get? k = some v) : md.has k = true := by
+  simp [Md.has, h]
+
+theorem getStr_of {md : Md} {k s : Text} (h : md.get? k = some (.str s)) : getStr md k = s := by simp [getStr, h]
+theorem getStrs_of {md : Md} {k : Text} {l : List Text} (h : md.get? k = some (.strs l)) : getStrs md k = l := by simp [getStrs, h]
+theorem getStrs_none {md : Md} {k : Text} (h : md.get? k = none) : getStrs md k = [] := by simp [getStrs, h]
+
+theorem render_three (t a b : Text) : render [(t!"self.type", t)] [.lit a, .hole t!"self.type", .lit b] = a ++ t ++ b := by
+  simp [render, lookupHole_head]
+
+
+theorem keys_of_ok {b : Backend} {md : Md} (h1 : firstUnexpected (branchOf b).whitelist md.keys = none) :
+    ∀ k ∈ md.keys, k ∈ b.whitelist := by
+  rw [branch_whitelist] at h1
+  exact (firstUnexpected_none_iff _ _).1 h1
+
+/-- what an accepted declaration is, stage by stage (any backend) -/
+theorem validateWith_sound (b : Backend) (md : Md) (c : CollSpec) (hty : md.mdType = b.mdType)
+    (h : validateWith (branchOf b) md = .ok c) :
+    ValidMd b md ∧ c.backend = b.execName ∧ ClassOk b c ∧ (KindDefault b md → declOf c = intended b md) := by
+  obtain ⟨h1, h2, ci, ct, et, libs, name, incs, h3, h4, h5, h6, rfl⟩ := validateWith_ok h
+  have hkeys := keys_of_ok h1
+  obtain ⟨hcc, hflag⟩ := (flagStage_ok_iff _ _ (branch_flagCheck b)).1 h2
+  have hname := (reqStr_ok_iff _ _ _).1 h5
+  have hincs := (reqStrs_ok_iff _ _ _).1 h6
+  cases b with
+  | atlas =>
+    obtain ⟨cc, sc, ciC, ciS, hb, hcC, hcS, hlk, f1, f2, f3, f4, f5, f6⟩ := branch_atlas
+    unfold containerStage at h3
+    rw [hb] at h3
+    simp only [] at h3
+    unfold libsStage at h4
+    rw [hlk] at h4
+    simp only [] at h4
+    cases hg : md.get? t!"contains_collection" with
+    | none => simp [Md.has, hg] at hcc
+    | some flag =>
+      rw [hg] at h3
+      simp only [] at h3
+      have hlibs : libs = getStrs md t!"link_libraries" := by
+        cases hl : md.has t!"link_libraries" with
+        | true =>
+          rw [hl] at h4; simp only [if_true] at h4
+          rw [getStrs_of ((reqStrs_ok_iff _ _ _).1 h4)]
+        | false =>
+          rw [hl] at h4; simp only [Bool.false_eq_true, if_false, Except.ok.injEq] at h4
+          have : md.get? t!"link_libraries" = none := by simpa [Md.has] using hl
+          rw [getStrs_none this, h4]
+      cases hf : flag.truthy with
+      | true =>
+        rw [hf] at h3; simp only [if_true] at h3
+        obtain ⟨ci', ct', et', e, g1, g2, g3⟩ := collStage_ok h3
+        rw [hcC] at g3
+        simp only [Prod.mk.injEq, Except.ok.injEq] at e g3
+        obtain ⟨rfl, rfl, rfl⟩ := e
+        subst g3
+        have hfl : md.flag = true := by simp [Md.flag, hg, hf]
+        refine ⟨⟨hty, hkeys, ?_, hflag⟩, ?_, ⟨?_, ?_, ?_⟩, ?_⟩
+        · intro k hk
+          simp only [requiredKeys, List.mem_cons, List.not_mem_nil, or_false] at hk
+          rcases hk with rfl | rfl | rfl | rfl
+          · exact has_of_get? hname
+          · exact has_of_get? hincs
+          · exact has_of_get? g1
+          · exact hcc
+        · simp [mkSpec, branch_specBackend]
+        · simp [mkSpec, CollSpec.tyStr, f1, render_three, expectedTy, declOf]
+        · intro hh; cases hh
+        · simp [mkSpec, f2]
+        · intro hkd
+          simp only [KindDefault] at hkd
+          have hnoep : md.get? t!"element_pointer" = none :=
+            get?_none_of_not_whitelisted hkeys (by decide)
+          simp [declOf, intended, mkSpec, getStr_of hname, getStrs_of hincs, getStr_of g1, getStr_of g2, hfl, hlibs, f3,
+            hnoep, Backend.elemPtrDefault]
+      | false =>
+        rw [hf] at h3; simp only [Bool.false_eq_true, if_false] at h3
+        obtain ⟨ci', ct', e, g1, g3⟩ := singleStage_ok h3
+        rw [hcS] at g3
+        simp only [Prod.mk.injEq, Except.ok.injEq] at e g3
+        obtain ⟨rfl, rfl, rfl⟩ := e
+        subst g3
+        have hfl : md.flag = false := by simp [Md.flag, hg, hf]
+        refine ⟨⟨hty, hkeys, ?_, hflag⟩, ?_, ⟨?_, ?_, ?_⟩, ?_⟩
+        · intro k hk
+          simp only [requiredKeys, List.mem_cons, List.not_mem_nil, or_false] at hk
+          rcases hk with rfl | rfl | rfl | rfl
+          · exact has_of_get? hname
+          · exact has_of_get? hincs
+          · exact has_of_get? g1
+          · exact hcc
+        · simp [mkSpec, branch_specBackend]
+        · simp [mkSpec, CollSpec.tyStr, f4, render_three, expectedTy, declOf]
+        · intro hh; cases hh
+        · simp [mkSpec, f5]
+        · intro _
+          simp [declOf, intended, mkSpec, getStr_of hname, getStrs_of hincs, getStr_of g1, hfl, hlibs]
+  | cmsAod =>
+    obtain ⟨cc, ciC, hb, hcC, hlk, f1, f2, f3⟩ := branch_cmsAod
+    unfold containerStage at h3
+    rw [hb] at h3
+    simp only [] at h3
+    unfold libsStage at h4
+    rw [hlk] at h4
+    simp only [Except.ok.injEq] at h4
+    subst h4
+    obtain ⟨ci', ct', et', e, g1, g2, g3⟩ := collStage_ok h3
+    rw [hcC] at g3
+    simp only [Prod.mk.injEq, Except.ok.injEq] at e g3
+    obtain ⟨rfl, rfl, rfl⟩ := e
+    subst g3
+    have hfl : md.flag = true := hflag.2 (has_of_get? g2)
+    have hnoll : md.get? t!"link_libraries" = none := get?_none_of_not_whitelisted hkeys (by decide)
+    refine ⟨⟨hty, hkeys, ?_, hflag⟩, ?_, ⟨?_, ?_, ?_⟩, ?_⟩
+    · intro k hk
+      simp only [requiredKeys, List.mem_cons, List.not_mem_nil, or_false] at hk
+      rcases hk with rfl | rfl | rfl | rfl
+      · exact has_of_get? hname
+      · exact has_of_get? hincs
+      · exact has_of_get? g1
+      · exact hcc
+    · simp [mkSpec, branch_specBackend]
+    · simp [mkSpec, CollSpec.tyStr, f1, render_three, expectedTy, declOf]
+    · intro hh; cases hh
+    · simp [mkSpec, f2]
+    · intro hkd
+      simp only [KindDefault] at hkd
+      cases hep : md.get? t!"element_pointer" with
+      | none =>
+        simp [declOf, intended, mkSpec, getStr_of hname, getStrs_of hincs, getStr_of g1, getStr_of g2, hfl, f3,
+          hep, getStrs_none hnoll, Backend.elemPtrDefault]
+      | some v =>
+        rw [hep] at hkd
+        simp only [Backend.elemPtrDefault] at hkd
+        simp [declOf, intended, mkSpec, getStr_of hname, getStrs_of hincs, getStr_of g1, getStr_of g2, hfl, f3,
+          hep, getStrs_none hnoll, hkd]
+  | cmsMiniaod =>
+    obtain ⟨cc, ciC, hb, hcC, hlk, f1, f2, f3, f4⟩ := branch_cmsMiniaod
+    unfold containerStage at h3
+    rw [hb] at h3
+    simp only [] at h3
+    unfold libsStage at h4
+    rw [hlk] at h4
+    simp only [Except.ok.injEq] at h4
+    subst h4
+    obtain ⟨ci', ct', et', e, g1, g2, g3⟩ := collStage_ok h3
+    rw [hcC] at g3
+    simp only [Prod.mk.injEq, Except.ok.injEq] at e g3
+    obtain ⟨rfl, rfl, rfl⟩ := e
+    subst g3
+    have hfl : md.flag = true := hflag.2 (has_of_get? g2)
+    have hnoll : md.get? t!"link_libraries" = none := get?_none_of_not_whitelisted hkeys (by decide)
+    refine ⟨⟨hty, hkeys, ?_, hflag⟩, ?_, ⟨?_, ?_, ?_⟩, ?_⟩
+    · intro k hk
+      simp only [requiredKeys, List.mem_cons, List.not_mem_nil, or_false] at hk
+      rcases hk with rfl | rfl | rfl | rfl
+      · exact has_of_get? hname
+      · exact has_of_get? hincs
+      · exact has_of_get? g1
+      · exact hcc
+    · simp [mkSpec, branch_specBackend]
+    · simp [mkSpec, CollSpec.tyStr, f1, render_three, expectedTy, declOf]
+    · intro _; simp [mkSpec, CollSpec.tokenTypeStr, f4, render_three]
+    · simp [mkSpec, f2]
+    · intro hkd
+      simp only [KindDefault] at hkd
+      cases hep : md.get? t!"element_pointer" with
+      | none =>
+        simp [declOf, intended, mkSpec, getStr_of hname, getStrs_of hincs, getStr_of g1, getStr_of g2, hfl, f3,
+          hep, getStrs_none hnoll, Backend.elemPtrDefault]
+      | some v =>
+        rw [hep] at hkd
+        simp only [Backend.elemPtrDefault] at hkd
+        simp [declOf, intended, mkSpec, getStr_of hname, getStrs_of hincs, getStr_of g1, getStr_of g2, hfl, f3,
+          hep, getStrs_none hnoll, hkd]
+
+
+theorem str_of_has {md : Md} {k : Text} (hh : md.has k = true) (ht : md.has k = true → isStr (md.get? k) = true) :
+    ∃ s, md.get? k = some (.str s) := by
+  have := ht hh
+  cases hg : md.get? k with
+  | none => simp [hg, isStr] at this
+  | some v => cases v <;> simp_all [isStr]
+
+theorem strs_of_has {md : Md} {k : Text} (hh : md.has k = true) (ht : md.has k = true → isStrs (md.get? k) = true) :
+    ∃ l, md.get? k = some (.strs l) := by
+  have := ht hh
+  cases hg : md.get? k with
+  | none => simp [hg, isStrs] at this
+  | some v => cases v <;> simp_all [isStrs]
+
+theorem collStage_of {md : Md} {cls : Text} {ci ct et} (h1 : md.get? t!"container_type" = some (.str ct))
+    (h2 : md.get? t!"element_type" = some (.str et)) (h3 : classStage cls = .ok ci) :
+    collStage md cls = .ok (ci, ct, some et) := by
+  simp [collStage, (reqStr_ok_iff _ _ _).2 h1, (reqStr_ok_iff _ _ _).2 h2, h3]
+
+theorem singleStage_of {md : Md} {cls : Text} {ci ct} (h1 : md.get? t!"container_type" = some (.str ct))
+    (h3 : classStage cls = .ok ci) : singleStage md cls = .ok (ci, ct, none) := by
+  simp [singleStage, (reqStr_ok_iff _ _ _).2 h1, h3]
+
+/-- a well-formed, well-typed declaration is accepted (CMS: if it declares a collection) -/
+theorem validateWith_complete (b : Backend) (md : Md) (hv : ValidMd b md) (hwt : md.WellTyped)
+    (hcms : CmsIsCollection b md) : ∃ c, validateWith (branchOf b) md = .ok c := by
+  obtain ⟨_, hkeys, hreq, hflag⟩ := hv
+  obtain ⟨w1, w2, w3, w4, w5, w6, w7⟩ := hwt
+  have h1 : firstUnexpected (branchOf b).whitelist md.keys = none := by
+    rw [branch_whitelist]; exact (firstUnexpected_none_iff _ _).2 hkeys
+  have hcc := hreq t!"contains_collection" (by simp [requiredKeys])
+  have h2 : flagStage (branchOf b) md = .ok () := (flagStage_ok_iff _ _ (branch_flagCheck b)).2 ⟨hcc, hflag⟩
+  obtain ⟨name, hname⟩ := str_of_has (hreq t!"name" (by simp [requiredKeys])) w1
+  obtain ⟨incs, hincs⟩ := strs_of_has (hreq t!"include_files" (by simp [requiredKeys])) w2
+  obtain ⟨ct, hct⟩ := str_of_has (hreq t!"container_type" (by simp [requiredKeys])) w3
+  have h5 := (reqStr_ok_iff _ _ _).2 hname
+  have h6 := (reqStrs_ok_iff _ _ _).2 hincs
+  cases b with
+  | atlas =>
+    obtain ⟨cc, sc, ciC, ciS, hb, hcC, hcS, hlk, -⟩ := branch_atlas
+    have h4 : ∃ libs, libsStage (branchOf .atlas) md = .ok libs := by
+      unfold libsStage; rw [hlk]; simp only []
+      cases hl : md.has t!"link_libraries" with
+      | true =>
+        obtain ⟨l, hl'⟩ := strs_of_has hl w6
+        exact ⟨l, by simp [(reqStrs_ok_iff _ _ _).2 hl']⟩
+      | false => exact ⟨[], by simp⟩
+    obtain ⟨libs, h4⟩ := h4
+    cases hg : md.get? t!"contains_collection" with
+    | none => simp [Md.has, hg] at hcc
+    | some flag =>
+      cases hf : flag.truthy with
+      | true =>
+        have hfl : md.flag = true := by simp [Md.flag, hg, hf]
+        obtain ⟨et, het⟩ := str_of_has (hflag.1 hfl) w4
+        have h3 : containerStage (branchOf .atlas) md = .ok (ciC, ct, some et) := by
+          unfold containerStage; rw [hb]; simp only [hg, hf, if_true]; exact collStage_of hct het hcC
+        exact ⟨_, validateWith_of h1 h2 h3 h4 h5 h6⟩
+      | false =>
+        have h3 : containerStage (branchOf .atlas) md = .ok (ciS, ct, none) := by
+          unfold containerStage; rw [hb]; simp only [hg, hf, Bool.false_eq_true, if_false]; exact singleStage_of hct hcS
+        exact ⟨_, validateWith_of h1 h2 h3 h4 h5 h6⟩
+  | cmsAod =>
+    obtain ⟨cc, ciC, hb, hcC, hlk, -⟩ := branch_cmsAod
+    have hfl : md.flag = true := by rcases hcms with h | h; exact absurd h (by decide); exact h
+    obtain ⟨et, het⟩ := str_of_has (hflag.1 hfl) w4
+    have h3 : containerStage (branchOf .cmsAod) md = .ok (ciC, ct, some et) := by
+      unfold containerStage; rw [hb]; exact collStage_of hct het hcC
+    have h4 : libsStage (branchOf .cmsAod) md = .ok [] := by unfold libsStage; rw [hlk]
+    exact ⟨_, validateWith_of h1 h2 h3 h4 h5 h6⟩
+  | cmsMiniaod =>
+    obtain ⟨cc, ciC, hb, hcC, hlk, -⟩ := branch_cmsMiniaod
+    have hfl : md.flag = true := by rcases hcms with h | h; exact absurd h (by decide); exact h
+    obtain ⟨et, het⟩ := str_of_has (hflag.1 hfl) w4
+    have h3 : containerStage (branchOf .cmsMiniaod) md = .ok (ciC, ct, some et) := by
+      unfold containerStage; rw [hb]; exact collStage_of hct het hcC
+    have h4 : libsStage (branchOf .cmsMiniaod) md = .ok [] := by unfold libsStage; rw [hlk]
+    exact ⟨_, validateWith_of h1 h2 h3 h4 h5 h6⟩
 
 end FaxVerif.C06
